@@ -207,3 +207,23 @@ impl<const ROUNDS: usize> State<ROUNDS> {
         }
     }
 }
+
+// verification-only hooks (off by default)
+#[cfg(feature = "verif-hooks")]
+impl<const ROUNDS: usize> State<ROUNDS> {
+    /// (verification hook) set the two counter words (64 bits counter variant)
+    pub(crate) fn verif_set_counter64(&mut self, counter: u64) {
+        let mut align = Align128::zero();
+        align.from_m128i(self.d);
+        align.0[0] = counter as u32;
+        align.0[1] = (counter >> 32) as u32;
+        self.d = align.to_m128i();
+    }
+
+    /// (verification hook) read the two first words of the last row
+    pub(crate) fn verif_counter64(&self) -> u64 {
+        let mut align = Align128::zero();
+        align.from_m128i(self.d);
+        (align.0[0] as u64) | ((align.0[1] as u64) << 32)
+    }
+}
